@@ -377,6 +377,8 @@ func runC07(c *Ctx) {
 	}
 	checkCanRecover(c, p, "R07.1")
 	checkCanRecoverEmission(c, p, "R07.1")
+	// with -zip the flag travels through the gob payload and the generated decoder
+	checkZipAgreement(c, p, "R07.1z")
 	for _, d := range gmParserDirs {
 		checkRecoveryProcedure(c, p, "R07.3", d)
 		checkLRDriver(c, p, "R07.4", gmRoot+"/"+d, "*Parser.Parse", false)
